@@ -480,6 +480,9 @@ func (generator *ConverterGenerator) argumentFromDisjunctionStruct(context Conte
 	}
 
 	envelopeValues := assignment.Value.Envelope.Values
+	if len(envelopeValues) == 0 {
+		return ArgumentMapping{}, false
+	}
 
 	arg := generator.argumentForType(context, converter, argName, valuePath.Append(envelopeValues[0].Path), envelopeValues[0].Path.Last().Type)
 	arg.Guards = tools.Map(envelopeValues, func(envelopedField ast.EnvelopeFieldValue) MappingGuard {
